@@ -107,7 +107,11 @@ class Vector:
             return None
 
         elements = tuple(
-            e.to_set_message() for k, e in self._elements.items() if e.enabled
+            m
+            for m in (
+                e.to_set_message() for k, e in self._elements.items() if e.enabled
+            )
+            if m is not None
         )
         return self.set_message_class(
             device=self.device.name,
